@@ -3,6 +3,7 @@
 -/
 import SodModel.Trace
 import SodModel.Layout
+import SodModel.Tags
 namespace Sod
 
 /-! ### the concrete environment of the harness type `T` -/
@@ -161,14 +162,21 @@ def parseSettings (args : List String) : Option Settings := do
   pure { ext := ext, compress := compress, cache := cache, async := async }
 
 /-- tie-insensitive comparison of an ordered/limited result with the model's -/
-def cmpCollect (orderPos : Option Nat) (model full impl : List Obj) : Bool :=
+def cmpCollect (orderPos : Option Nat) (key : Obj → Option Val) (model full impl : List Obj) : Bool :=
   impl.length == model.length &&
   (match orderPos with
-   | some p => impl.map (·.field p) == model.map (·.field p)
+   | some _ => impl.map key == model.map key
    | none => true) &&
   impl.all (fun o => full.contains o) &&
   (impl.map (·.uuid)).eraseDups.length == impl.length &&
   (model.length != full.length || sortObjs impl == sortObjs model)
+
+/-- the key under which an object was CAPTURED by a search (a search is a snapshot: ties are judged
+    on the captured keys, not on what the object holds by now) -/
+def capturedKey (c : Coll) (s : Search) (o : Obj) : Option Val :=
+  match c.schema with
+  | (_, .ok l) => (l.index.oidOf o.uuid).bind (fun oid => (s.fields.byOid oid).map (·.1))
+  | _ => none
 
 /-- the members of a search that can currently be read -/
 def readableOf (c : Coll) (s : Search) : List Obj :=
@@ -258,6 +266,9 @@ def DState.exec (d : DState) (op : String) (args : List String) (impl : String) 
     let s ← unhex s
     pure (d, { txt := s!"{hex (upBytes s)} {hex (loBytes s)} {hex (loBytes (upBytes s))}",
                agree := some (hex (upBytes s) == u && hex (loBytes s) == l && hex (loBytes (upBytes s)) == lu) })
+  | "tags", [_, tag] => do   -- struct-tag parsing (fdFromType)
+    let tag ← unhexStr tag
+    pure (d, { txt := "c" ++ (Cons.ofTags (tag.splitOn ",")).flags })
   | "create", _ => do
     let st ← parseSettings args
     let descs ← (args.filter (fun a => "d=".isPrefixOf a)).mapM (fun a => parseDesc ((a.drop 2).toString))
@@ -376,7 +387,7 @@ def DState.exec (d : DState) (op : String) (args : List String) (impl : String) 
           if loose then
             io.all (fun o => readable.contains o) && (io.map (·.uuid)).eraseDups.length == io.length &&
               (r == "ok" || some r == fe.map (fun e => "E:" ++ e.print))
-          else r == printErrOpt e && (e.isSome || cmpCollect s.orderPos out full io)
+          else r == printErrOpt e && (e.isSome || cmpCollect s.orderPos (capturedKey d.c s) out full io)
         | none => false
       | _ => false
     pure (d', { txt := txt, agree := some agree })
@@ -400,7 +411,7 @@ def DState.exec (d : DState) (op : String) (args : List String) (impl : String) 
     | .ok o =>
       let agree := match parseObj impl with
         | some io => full.contains io && (match s.orderPos with
-                                          | some p => io.field p == o.field p
+                                          | some _ => capturedKey d.c s io == capturedKey d.c s o
                                           | none => true)
         | none => false
       pure (d', { txt := o.print, agree := some agree })
